@@ -377,7 +377,7 @@ def evaluate(nodes, env, exact=False, atom_env=None):
                 v = S._KAPPA[nm[1:]]
                 val[n.id] = Fraction(v) if exact else v
             else:
-                val[n.id] = env[nm]
+                val[n.id] = Fraction(env[nm]) if exact == 'hybrid' else env[nm]
         elif op == 'add':
             val[n.id] = val[n.a[0].id] + val[n.a[1].id]
         elif op == 'mul':
@@ -385,7 +385,10 @@ def evaluate(nodes, env, exact=False, atom_env=None):
         elif op == 'div':
             val[n.id] = val[n.a[0].id] / val[n.a[1].id]
         elif op == 'app':
-            if exact:
+            if exact == 'hybrid':
+                # rational arithmetic (no overflow at extreme magnitudes), atoms through floats
+                val[n.id] = Fraction(_atom_eval(n.a[0], n.a[1], [float(val[t.id]) for t in n.a[2:]]))
+            elif exact:
                 val[n.id] = atom_env[n.id]
             else:
                 val[n.id] = _atom_eval(n.a[0], n.a[1], [val[t.id] for t in n.a[2:]])
